@@ -4,6 +4,7 @@
   the shared JSON-Schema semantics SV/Spec/JsonSchema.lean)
 -/
 import SV.Proofs.C03
+import SV.Proofs.C03Cases
 
 namespace SV.Props.C03
 open SV SV.Spec.JsonSchema SV.Model.C03 SV.Spec.C03 SV.Proofs.C03
@@ -109,5 +110,99 @@ example : ∃ kvs k, parseNumKw kvs = some k ∧ Json.lookup "type" kvs = some (
     ((positiveNumber .repaired .repaired kvs st0).out.map (·.value.int?)) = [some 0, some 2, some 4] :=
   ⟨[("type", .str "integer"), ("minimum", .num (-1) 0), ("maximum", .num 4 0), ("multipleOf", .num 2 0)],
    ⟨some (-1), some 4, none, none, some 2⟩, by rfl, by rfl, by intro x h; cases h; decide, by decide, by decide⟩
+
+/-! ## cases: `_iter_coverage_cases` -/
+
+/-- Full statement (C03_case_label + C03_components_consistent): whatever values cover_schema_iter handed over,
+    every assembled case is labelled negative exactly when a part of it is negative / a required parameter was
+    removed / a parameter was duplicated / the method is undocumented, and every component label is the label its
+    container deserves. -/
+def case_labels_full (v : Variant) : Prop :=
+  ∀ (inp : OpIn) (cs : List Case), iterCases v inp = some cs → ∀ c ∈ cs, caseLabelOk c = true ∧ compsOk c = true
+
+/-- C03 / cases, repaired `_iter_coverage_cases` (F8: the n-th body case takes the n-th value's mode): the full
+    statement holds for every operation, mode set and value stream that is well-formed (`WF`: the first value of each
+    generator is positive when positives are requested, all values negative otherwise). -/
+theorem case_labels_repaired (inp : OpIn) (hwf : WF inp) (cs : List Case) (he : iterCases .repaired inp = some cs) :
+    ∀ c ∈ cs, caseLabelOk c = true ∧ compsOk c = true :=
+  iterCases_good inp hwf cs he
+
+/-- The snapshot satisfies the same statement exactly when no body alternative mixes labels after its first value
+    (then the F8 site is never exercised). -/
+theorem case_labels_asFound_partial (inp : OpIn) (hwf : WF inp)
+    (hbody : ∀ b ∈ inp.bodies, ∀ v rest, b.values = v :: rest → ∀ w ∈ rest, w.mode = v.mode)
+    (cs : List Case) (he : iterCases .asFound inp = some cs) :
+    ∀ c ∈ cs, caseLabelOk c = true ∧ compsOk c = true := by
+  apply iterCases_good inp hwf cs
+  have : iterCases .asFound inp = iterCases .repaired inp := by
+    unfold iterCases
+    simp only [fun t => bodyCases_asFound_eq inp.bodies t hbody]
+  rw [← this]; exact he
+
+/-- F8 witness: one body alternative yielding a positive then a negative value, modes {positive, negative}.
+    Snapshot: the second case is labelled positive with a negative body component; repaired: fine. -/
+def inpF8 : OpIn :=
+  { params := [], hasBody := true,
+    bodies := [⟨"application/json", [⟨.positive, .minimumValue, none⟩, ⟨.negative, .incorrectType, none⟩]⟩],
+    methods := [], pos := true, neg := true, negCalls := [] }
+
+theorem F8_body_label_witness :
+    (match iterCases .asFound inpF8 with
+     | some cs => cs.map (fun c => (c.mode, getAssoc Kind.body c.comps, caseLabelOk c))
+     | none => []) = [(.positive, some .positive, true), (.positive, some .negative, false)] ∧
+    (match iterCases .repaired inpF8 with
+     | some cs => cs.all (fun c => caseLabelOk c && compsOk c)
+     | none => false) = true := by
+  decide
+
+theorem case_labels_full_false_asFound : ¬ case_labels_full .asFound := by
+  intro h
+  have hall : (match iterCases .asFound inpF8 with
+      | some cs => cs.all (fun c => caseLabelOk c && compsOk c) | none => true) = true := by
+    cases hc : iterCases .asFound inpF8 with
+    | none => rfl
+    | some cs =>
+      simp only [List.all_eq_true, Bool.and_eq_true]
+      intro c hm; exact h inpF8 cs hc c hm
+  revert hall
+  decide
+
+/-- F8b/F8c witness — the hypothesis `WF` of `case_labels_repaired` cannot be dropped: a required query parameter
+    whose only value is negative (schema `{minimum: 5}`) next to an ordinary one; the repaired variant still labels
+    the default case positive (component query negative) and `with_container` hides the negative template value. -/
+def inpF8b : OpIn :=
+  { params := [⟨"query", "n", true, [⟨.negative, .smallerThanMinimum, none⟩]⟩,
+               ⟨"query", "r", false, [⟨.positive, .validBoolean, none⟩, ⟨.positive, .validBoolean, none⟩]⟩],
+    hasBody := false, bodies := [], methods := [], pos := true, neg := false, negCalls := [] }
+
+theorem case_labels_full_false_repaired : ¬ case_labels_full .repaired := by
+  intro h
+  have hall : (match iterCases .repaired inpF8b with
+      | some cs => cs.all (fun c => caseLabelOk c && compsOk c) | none => true) = true := by
+    cases hc : iterCases .repaired inpF8b with
+    | none => rfl
+    | some cs =>
+      simp only [List.all_eq_true, Bool.and_eq_true]
+      intro c hm; exact h inpF8b cs hc c hm
+  revert hall
+  decide
+
+/-- non-vacuity of `case_labels_repaired`: a well-formed input (two query parameters, a body with mixed labels, both
+    modes) produces 8 cases -/
+def inpOk : OpIn :=
+  { params := [⟨"query", "q", true, [⟨.positive, .minimumValue, none⟩, ⟨.negative, .incorrectType, none⟩]⟩,
+               ⟨"query", "r", false, [⟨.positive, .validBoolean, none⟩]⟩],
+    hasBody := true,
+    bodies := [⟨"application/json", [⟨.positive, .minimumValue, none⟩, ⟨.negative, .incorrectType, none⟩]⟩],
+    methods := ["GET"], pos := true, neg := true, negCalls := [[⟨.negative, .unexpectedProperties, none⟩]] }
+
+example : WF inpOk ∧ (match iterCases .repaired inpOk with | some cs => cs.length | none => 0) = 9 := by
+  refine ⟨⟨?_, ?_, ?_⟩, by decide⟩
+  · intro p hp; simp [inpOk] at hp; rcases hp with rfl | rfl <;> decide
+  · intro _
+    constructor
+    · intro p hp v rest hv; simp [inpOk] at hp; rcases hp with rfl | rfl <;> simp at hv <;> (obtain ⟨rfl, _⟩ := hv; rfl)
+    · intro b hb v rest hv; simp [inpOk] at hb; subst hb; simp at hv; obtain ⟨rfl, _⟩ := hv; rfl
+  · intro h; simp [inpOk] at h
 
 end SV.Props.C03
